@@ -22,9 +22,9 @@ THEOREMS += [("FlatModel.Props.UniverseGrows", "FC.Universe." + t) for t in (
     "C17_keys_are_heap_uncoded", "C17_log_growth_uncoded", "C17_push_doubles_uncoded", "C17_total_uncoded", "C17_total_nocolumns",
     "C17_bridge_vecSized", "C17_clear_keeps_uncoded", "C17_clear_exact_uncoded")]
 LEAN_TARGETS = ["FlatModel.Generated.CoveredHeap", "FlatModel.Generated.CoveredUniverseOps"]
-PROFILES = {"quick": ["checked"], "thorough": ["checked", "wrapping"], "search": ["checked"]}
+PROFILES = {"quick": ["checked", "wrapping"], "thorough": ["checked", "wrapping"], "search": ["checked"]}
 RULE = ("vector-backed structural entries (owned, string, slice with Vec indices, option, result, tuple, Vec-as-region) and FlatStacks "
-        "with Vec indices: reserve_items(batch, in every form with a ReserveItems impl incl. Option<&T> / Result<&T,&E> by value) / reserve_regions(sources) / merge_regions(sources) / merge_capacity, from empty and "
+        "with Vec indices: reserve_items(batch, in every form with a ReserveItems impl incl. Option<&T> / Result<&T,&E> by value and batches of const arrays, half of them through an iterator whose size hint has lower bound 0) / reserve_regions(sources) / merge_regions(sources) / merge_capacity, from empty and "
         "from populated regions, then pushing exactly the announced contents: every capacity reported by heap_size is unchanged and "
         "(plain-data payloads) the counting allocator sees no call inside the pushes; without pre-sizing, n = 2^6..2^12 (quick) / "
         "2^14 (thorough) pushes into every non-coded entry cost at most (#storages) * (log2(bytes stored) + 3) allocator calls; "
@@ -67,6 +67,14 @@ def no_allocs(got, _):
     return None if got == "allocs 0" else "allocator was called inside the announced pushes"
 
 
+def uniform(b, rng, n):
+    """a value of the entry's (list / byte string) shape with exactly n elements"""
+    from fcat import gen_value
+    if b.sh[0] == "bytes":
+        return bytes(rng.pick([0, 1, 2, 97, 98, 127, 128, 200, 254, 255]) for _ in range(n))
+    return [gen_value(rng, b.sh[1], 1) for _ in range(n)]
+
+
 def presized(cat, rng, how, stack=None):
     b = RB(ID, cat, rng, stack)
     b.s.noshrink = True
@@ -81,7 +89,15 @@ def presized(cat, rng, how, stack=None):
     form = None
     if how == "items":
         form = rng.pick(rforms)
-        b.raw("reserve_items a %s [%s]" % (form, ",".join(b.r(v) for v in batch)), ("eq", "ok"), shape="rsvi%d" % len(batch))
+        aforms = cat.get("reserve_array_forms", [])
+        if aforms and rng.below(4) == 0 and b.sh[0] in ("list", "bytes") and not (b.sh[0] == "bytes" and b.sh[1]):
+            # a batch of const arrays `&[T; N]`: all of one length N <= 4
+            n = rng.below(5)
+            batch = [uniform(b, rng, n) for _ in batch]
+            form = rng.pick(aforms)
+        # half of the time the announcement arrives through an iterator without a useful size hint (`~`)
+        wire = form + ("~" if rng.below(2) else "")
+        b.raw("reserve_items a %s [%s]" % (wire, ",".join(b.r(v) for v in batch)), ("eq", "ok"), shape="rsvi%d%s" % (len(batch), wire[-1:] if wire.endswith("~") else ""))
     else:
         # the batch lives in 1..3 source regions
         srcs = []
